@@ -4,6 +4,9 @@
 -/
 import Gzx.Driver.C06Det
 import Gzx.Model.PureBits
+import Gzx.Model.DetAztec2
+import Gzx.Model.AztecRS
+import Gzx.Gen.C11Aztec
 namespace Gzx.Driver.C06Rest
 open Gzx Gzx.Det Gzx.Driver.C06Det
 
@@ -47,9 +50,78 @@ def handlePure : List String → Option String
     showBitsRes (Pure.QR.extractPureBits FOps.float img.rdStrict img)
   | _ => none
 
+/-! ## Aztec detector, later stages -/
+
+def azExpected : List Nat := (Gzx.Gen.C11Aztec.EXPECTED_CORNER_BITS.asNatList?).getD []
+
+def parseQuad? (s : String) : Option (AZ.Quad Float) :=
+  match (s.splitOn ";").mapM parsePt? with
+  | some [a, b, c, d] => some ⟨a, b, c, d⟩
+  | _ => none
+
+def showQuad (q : AZ.Quad Float) : String := ";".intercalate [showPt q.p0, showPt q.p1, showPt q.p2, showPt q.p3]
+
+def showIntRes : Res Int → String
+  | .ok n => s!"ok {n}"
+  | .error e => showFault e
+
+def handleAZ2 : List String → Option String
+  | ["azcolor", w, h, bits, x1, y1, x2, y2] => some <| withImg w h bits fun img _ _ =>
+    match ints? [x1, y1, x2, y2] with
+    | some [x1, y1, x2, y2] => showIntRes (AZ.getColor FOps.float img.rdGo (x1, y1) (x2, y2))
+    | _ => "bad-op"
+  | ["azrect", w, h, bits, ps] => some <| withImg w h bits fun img w h =>
+    match parseIntList? ps with
+    | some [a, b, c, d, e, f, g, i] =>
+      match AZ.isWhiteOrBlackRectangle FOps.float img.rdGo w h (a, b) (c, d) (e, f) (g, i) with
+      | .ok r => s!"ok {r}"
+      | .error e => showFault e
+    | _ => "bad-op"
+  | ["azbulls", w, h, bits, cx, cy] => some <| withImg w h bits fun img w h =>
+    match ints? [cx, cy] with
+    | some [cx, cy] =>
+      match AZ.getBullsEyeCorners FOps.float img.rdGo w h (cx, cy) with
+      | .ok be => s!"ok nb={be.nbCenterLayers} compact={be.compact} {showQuad be.corners}"
+      | .error e => showFault e
+    | _ => "bad-op"
+  | ["azexpand", q, oldSide, newSide] => some <|
+    match parseQuad? q, parseInt? oldSide, parseInt? newSide with
+    | some q, some a, some b => "ok " ++ showQuad (AZ.expandSquare FOps.float q a b)
+    | _, _, _ => "bad-op"
+  | ["azline", w, h, bits, p1, p2, size] => some <| withImg w h bits fun img _ _ =>
+    match parsePt? p1, parsePt? p2, parseInt? size with
+    | some p1, some p2, some size =>
+      match AZ.sampleLine FOps.float img.rdGo p1 p2 size with
+      | .ok n => s!"ok {n}"
+      | .error e => showFault e
+    | _, _, _ => "bad-op"
+  | ["azparams", w, h, bits, q, nb, compact] => some <| withImg w h bits fun img w h =>
+    match parseQuad? q, parseInt? nb with
+    | some q, some nb =>
+      match AZ.extractParameters FOps.float img.rdGo w h azExpected AztecDecoder.rsModel q nb (compact == "1") with
+      | .ok p => s!"ok shift={p.shift} layers={p.nbLayers} blocks={p.nbDataBlocks}"
+      | .error e => showFault e
+    | _, _ => "bad-op"
+  | ["azcorners", q, nb, compact, layers] => some <|
+    match parseQuad? q, parseInt? nb, parseInt? layers with
+    | some q, some nb, some l => "ok " ++ showQuad (AZ.getMatrixCornerPoints FOps.float q nb (compact == "1") l)
+    | _, _, _ => "bad-op"
+  | ["azdim", compact, layers] => some <|
+    match parseInt? layers with
+    | some l => s!"ok {AZ.getDimension (compact == "1") l}"
+    | none => "bad-op"
+  | ["azdetect", w, h, bits, mirror] => some <| withImg w h bits fun img w h =>
+    match AZ.detect FOps.float img.rdGo w h azExpected AztecDecoder.rsModel (mirror == "1") with
+    | .ok l => s!"ok compact={l.compact} layers={l.nbLayers} blocks={l.nbDataBlocks} shift={l.shift} dim={l.dimension} c={showQuad l.corners}"
+    | .error e => showFault e
+  | _ => none
+
 def handle (args : List String) : String :=
   match handlePure args with
   | some r => r
-  | none => "bad-op"
+  | none =>
+    match handleAZ2 args with
+    | some r => r
+    | none => "bad-op"
 
 end Gzx.Driver.C06Rest
